@@ -402,6 +402,15 @@ impl JTracker {
             rule!(ctx, "C03", "buffer-content", "tick", a == b, "pending buffer before tick holds tags {:?}, inserted since last tick {:?}", a, b);
         }
 
+        // ---- the book holds only orders that an earlier tick admitted or announced (C01, C03) ---------
+        if ctx.wants("C01") || ctx.wants("C03") {
+            let unknown: Vec<u64> = pre.book.iter().filter(|o| !self.by_id.contains_key(&o.order_id)).map(|o| o.order_id).take(5).collect();
+            if !unknown.is_empty() {
+                ctx.fail("C01", "in-book-before-admission", "tick", format!("when the tick began the book already held orders no earlier tick admitted (ids {:?}, {} submitted and waiting): they can fill on the tick that admits them", unknown, self.buffered.len()));
+                ctx.fail("C03", "in-book-before-admission", "tick", format!("when the tick began the book already held orders no earlier tick admitted (ids {:?})", unknown));
+            }
+        }
+
         // ==== A. what the C18 table expects, from the SUT's own pre-tick book and the model's own
         //         one-shot flags ======================================================================
         let mut exp_fills: Vec<Fill> = Vec::new();
@@ -471,7 +480,7 @@ impl JTracker {
                 self.recs[i].status = St::Cancelled;
             }
         }
-        for id in &filled_ids {
+        for id in fills.iter().map(|f| &f.oid) {
             if post_id_set.contains(id) {
                 ctx.fail("C03", "filled-stays", "tick", format!("order id {id} filled on this tick but is still in the book"));
             }
